@@ -208,7 +208,7 @@ def atoms(bodies, S=None):
 
 
 def _atoms(bodies, S):
-    out = {k: set() for k in ("call", "recv", "arg", "dec", "must", "mustq", "mustcall", "new", "fld", "set", "grd", "ord", "arm", "grdn")}
+    out = {k: set() for k in ("call", "recv", "arg", "dec", "must", "mustq", "mustcall", "new", "fld", "set", "grd", "ord", "arm", "grdn", "byp")}
     for b in bodies:
         try:
             logb = FP.log_region(b)
@@ -366,6 +366,19 @@ def _atoms(bodies, S):
                 ga = "%s <= %s" % (tid, json.dumps(sorted(gs)))
                 out["grd"].add(ga)
                 grd_n[ga] = grd_n.get(ga, 0) + 1
+                # `byp`: the informative, non-rejecting tests after which this step can still be skipped (the test dominates the step and some exit is
+                # reachable from it without passing the step). A superset of the guard set without sides: `if a && b { return }` in front of a
+                # step has no single edge that excludes the step (so `grd` does not see it), but both tests can bypass it.
+                bs = set()
+                for sw, rt, rf, core, is_match in guards:
+                    if sw == blk_id or not b.dominates(sw, blk_id):
+                        continue
+                    try:
+                        if b.reachable(sw, avoid={blk_id}) & rets:
+                            bs.add(core)
+                    except Exception:
+                        pass
+                out["byp"].add("%s <= %s" % (tid, json.dumps(sorted(bs))))
             # `grdn`: the same step under the same conditions at n >= 2 places of the function (two loops that each stage entries, two arms that
             # each push): dropping one of them loses no presence fact
             for ga, n in grd_n.items():
